@@ -744,7 +744,7 @@ impl Check for C16 {
                 }
             }
             Sc::Push { init, perm_seed } => {
-                let vm = checks::vmsim::VmSc { init: init.clone(), faults: vec![], limits: vec![], rebuild_at: None };
+                let vm = checks::vmsim::VmSc { init: init.clone(), faults: vec![], limits: vec![], rebuild_at: None, long: false };
                 for s in vmgen::shrink(&vm) {
                     out.push(Sc::Push { init: s.init, perm_seed: *perm_seed });
                 }
